@@ -260,3 +260,31 @@ fn vstmt(s: &Statement, q: &Statement) -> String
 		_ => stmt(s),
 	}
 }
+
+/// Container depths assigned by the scoper (C11): "name=depth" / "name=poison".
+pub fn depths(pre: &[Declaration], post: &[Declaration]) -> String
+{
+	let mut out = Vec::new();
+	for (d, q) in pre.iter().zip(post.iter())
+	{
+		let name = match d
+		{
+			Declaration::Constant { name, .. } => &name.name,
+			Declaration::Structure { name, .. } => &name.name,
+			_ => continue,
+		};
+		let depth = match q
+		{
+			Declaration::Constant { depth, .. } => depth.clone(),
+			Declaration::Structure { depth, .. } => depth.clone(),
+			_ => None,
+		};
+		out.push(match depth
+		{
+			Some(Ok(n)) => format!("{}={}", name, n),
+			Some(Err(_)) => format!("{}=poison", name),
+			None => format!("{}=none", name),
+		});
+	}
+	out.join(",")
+}
